@@ -13,7 +13,7 @@ import fw
 
 ID = 'C20'
 LEVEL = 'proof'
-LEAN_TARGETS = ['BareProofs.C20']
+LEAN_TARGETS = ['BareProofs.C20', 'BareProofs.C20Includes']
 DRIVER = 'drv_c20'
 DRIVER_ROOT = 'Drv.C20'
 GEN = ['Includes']
@@ -37,7 +37,16 @@ ASSUMPTIONS = [
 ]
 TRUSTED = ['bare.py include fetcher (_fetch_include, _FETCH_INCLUDE_PREFIX) is used as the CLI uses it (fetchFn/systemPrefix options)']
 
-MAX_STATEMENTS = 20_000_000
+SKIPPED = {'skipped': 'not run: diffLines exceeded its statement budget on earlier inputs'}
+MAX_OVERRUNS = 3
+
+
+def statement_budget(left, right):
+    """A generous bound on the statements diffLines may execute (measured: <= 4 per look-ahead step, <= |L|+|R|+1 passes):
+    ~70x what the unchanged script needs, yet small enough that a non-terminating variant cannot hang the check."""
+    n, m = len(ref_lines(left)), len(ref_lines(right))
+    return 1000 + (n + m + 2) * (4 * (n + 1) * (m + 1) + 60)
+
 ALPHABET = 'abc'
 KINDS = ('Identical', 'Add', 'Remove')
 
@@ -61,32 +70,42 @@ class Runner:
         self.full = None
         self.call = None
         self.globals = None
-        self.setup_error = None
+        self.overruns = 0
 
-    def _options(self, globals_):
+    def _options(self, globals_, limit):
         return {'fetchFn': self.bare._fetch_include, 'systemPrefix': self.bare._FETCH_INCLUDE_PREFIX,  # pylint: disable=protected-access
-                'globals': globals_, 'maxStatements': MAX_STATEMENTS}
+                'globals': globals_, 'maxStatements': limit}
+
+    def _error(self, exc):
+        if 'Exceeded maximum script statements' in str(exc):
+            self.overruns += 1
+        return {'error': type(exc).__name__ + ': ' + str(exc)[:120]}
 
     def fresh(self, left, right):
+        if self.overruns >= MAX_OVERRUNS:
+            return SKIPPED
         try:
             if self.full is None:
                 self.full = self.parser.parse_script(SCRIPT_FULL)
-            return canon(self.runtime.execute_script(self.full, self._options({'l': clone(left), 'r': clone(right)})))
+            return canon(self.runtime.execute_script(self.full, self._options({'l': clone(left), 'r': clone(right)},
+                                                                              statement_budget(left, right))))
         except Exception as exc:  # pylint: disable=broad-except
-            return {'error': type(exc).__name__ + ': ' + str(exc)[:120]}
+            return self._error(exc)
 
     def shared(self, left, right):
+        if self.overruns >= MAX_OVERRUNS:
+            return SKIPPED
         try:
             if self.globals is None:
                 glob = {}
-                self.runtime.execute_script(self.parser.parse_script(SCRIPT_INCLUDE), self._options(glob))
+                self.runtime.execute_script(self.parser.parse_script(SCRIPT_INCLUDE), self._options(glob, 100000))
                 self.call = self.parser.parse_script(SCRIPT_CALL)
                 self.globals = glob
             self.globals['l'] = clone(left)
             self.globals['r'] = clone(right)
-            return canon(self.runtime.execute_script(self.call, self._options(self.globals)))
+            return canon(self.runtime.execute_script(self.call, self._options(self.globals, statement_budget(left, right))))
         except Exception as exc:  # pylint: disable=broad-except
-            return {'error': type(exc).__name__ + ': ' + str(exc)[:120]}
+            return self._error(exc)
 
 
 def clone(x):
@@ -148,6 +167,8 @@ def check_case(ctx, stream, runner_fn, case, model, mode):
     """One case: implementation vs model, and the oracle on the implementation. `model` may be None (no driver)."""
     left, right = case
     impl = runner_fn(left, right)
+    if impl is SKIPPED:
+        return impl
     if model is not None:
         ctx.compare(stream, {'left': left, 'right': right, 'mode': mode}, impl, model)
     bad = oracle(left, right, impl)
@@ -235,7 +256,7 @@ def input_cases(ctx):
                     row = json.loads(ln)
                     yield 'corpus', row['left'], row['right']
     rng = ctx.rng('diff-inputs')
-    for _ in range(ctx.scale(1200, 12000)):
+    for _ in range(ctx.scale(3000, 12000)):
         pool = rng.choice(LINE_POOLS)
         nmax = rng.choice([3, 8, 20, 40])
         if rng.random() < 0.7:
@@ -290,6 +311,9 @@ def _exhaustive_chunk(args):
     dis, wit, hist = [], [], {}
     for (left, right), model in zip(pairs, models):
         impl = runner.shared(left, right)
+        if impl is SKIPPED:
+            hist['skipped'] = hist.get('skipped', 0) + 1
+            continue
         if model is not None and impl != model and len(dis) < 50:
             dis.append(({'left': left, 'right': right, 'mode': 'shared'}, impl, model))
         bad = oracle(left, right, impl)
@@ -330,7 +354,7 @@ def run_exhaustive(ctx, kmax, workers):
     for left in lists:
         for right in lists:
             st.case([left, right], nontrivial=bool(left) and bool(right) and left != right)
-    st.exhaustive = (total == n * n)
+    st.exhaustive = (total == n * n and 'skipped' not in st.hist)
     return total
 
 
@@ -355,6 +379,9 @@ def stream_inputs(ctx, runner):
     for (shape, left, right), model in zip(cases, models):
         want_l, want_r = ref_lines(left), ref_lines(right)
         impl = check_case(ctx, 'diff-inputs', runner.fresh, (left, right), model, 'fresh')
+        if impl is SKIPPED:
+            st.case([left, right], nontrivial=False, tags=['skipped'])
+            continue
         if model is not None and isinstance(left, str) and isinstance(right, str):
             ctx.compare('diff-inputs', {'left': left, 'right': right, 'mode': 'diffText'}, impl, by_pair[json.dumps([left, right])])
         st.case([left, right], nontrivial=bool(want_l) and bool(want_r) and want_l != want_r,
@@ -372,10 +399,15 @@ def stream_cli_path(ctx, runner, kmax):
         models = [model_out(x) for x in ctx.driver.batch([{'op': 'diff', 'left': l, 'right': r} for l, r in pairs])]
     for (left, right), model in zip(pairs, models):
         impl = check_case(ctx, 'diff-cli', runner.fresh, (left, right), model, 'fresh')
-        ctx.compare('diff-cli', {'left': left, 'right': right, 'mode': 'fresh-vs-shared'}, impl, runner.shared(left, right))
+        if impl is SKIPPED:
+            st.case([left, right], nontrivial=False, tags=['skipped'])
+            continue
+        again = runner.shared(left, right)
+        if again is not SKIPPED:
+            ctx.compare('diff-cli', {'left': left, 'right': right, 'mode': 'fresh-vs-shared'}, impl, again)
         st.case([left, right], nontrivial=bool(left) and bool(right) and left != right,
                 tags=['blocks=%s' % (len(impl) if isinstance(impl, list) else 'error')])
-    st.exhaustive = True
+    st.exhaustive = 'skipped' not in st.hist
 
 
 def include_facts():
@@ -469,7 +501,7 @@ def search(ctx):
 
     def try_case(left, right, fn, mode):
         impl = fn(left, right)
-        bad = oracle(left, right, impl)
+        bad = None if impl is SKIPPED else oracle(left, right, impl)
         if bad is not None:
             ctx.witness(bad[0], {'left': left, 'right': right, 'mode': mode}, bad[1], bad[2])
             return True
